@@ -207,6 +207,13 @@ def run(tier, seed):
     named = [l for l in lists if any(s_ in FN_SYMS for s_ in l)]
     cases += build_cases(named, "r", [(False, False, "fn")], fn_name="r#" + FN)
     rep.extra["lists_with_raw_fn_name"] = len(named)
+    # fns stamped out by macro_rules!: parameter names of one signature live in different hygiene contexts (same spelling,
+    # distinct bindings): "forwards them positionally" has to hold for those as well
+    from ..gen.fncases import macro_case
+    hyg = [macro_case("c16h_%04d" % i, rng) for i in range(60 if tier == "quick" else 600)]
+    for c in hyg:
+        c.meta["hygiene_only"] = True
+    cases += hyg
     if tier != "quick":
         cases += build_cases(lists, "v", [(False, True, "fn"), (False, False, "mod"), (True, True, "fn")])
         l4 = [l for l in itertools.product(syms, repeat=4) if valid(l)]
@@ -227,7 +234,8 @@ def run(tier, seed):
         ws.run(b["exes"])
         selftest.verify(st)
         for c in chunk:
-            check_names(c, rep)
+            if not c.meta.get("hygiene_only"):
+                check_names(c, rep)
             c01.check_case(c, rep)
             c.records, c.records_by, c.runrec = [], {}, {}
         rounds = max(rounds, ws.rounds)
